@@ -183,12 +183,12 @@ func c22IndexMismatch(f *ClusterFSM, st c22State) string {
 // ---------------------------------------------------------------- sequence execution
 
 type c22Run struct {
-	cmds    []c22Cmd
-	results []error
-	dumps   []c22State // dumps[i]: main FSM after i entries
-	snaps   [][]byte   // snaps[i]: snapshot of the state after i entries
-	cascade bool       // some delete removed more than one RBAC/token entity
-	rejThenAcc bool    // a rejected entry followed by an accepted one on the same key
+	cmds       []c22Cmd
+	results    []error
+	dumps      []c22State // dumps[i]: main FSM after i entries
+	snaps      [][]byte   // snaps[i]: snapshot of the state after i entries
+	cascade    bool       // some delete removed more than one RBAC/token entity
+	rejThenAcc bool       // a rejected entry followed by an accepted one on the same key
 }
 
 func c22Failf(tb c22TB, run *c22Run, class, format string, args ...any) {
